@@ -861,10 +861,12 @@ type payCase struct {
 	Payload string            `json:"payload"`
 	NoID    bool              `json:"noid"` // the payload has no id member (a create request)
 	// UnknownRel: shape of a relationship member "zr" the schema does not have ("" = none)
-	UnknownRel  string `json:"unknownrel"`
-	NoDataForm  int    `json:"nodataform"`  // which members an object without data carries
-	Trailing    string `json:"trailing"`    // text after the resource object (white space is harmless, anything else is not JSON)
-	UnknownType bool   `json:"unknowntype"` // the payload's type is not in the schema
+	UnknownRel string `json:"unknownrel"`
+	// UnknownRelName: the name of that member ("" = "zr"); "kstring" is an attribute's name in the wrong place
+	UnknownRelName string `json:"unknownrelname"`
+	NoDataForm     int    `json:"nodataform"`  // which members an object without data carries
+	Trailing       string `json:"trailing"`    // text after the resource object (white space is harmless, anything else is not JSON)
+	UnknownType    bool   `json:"unknowntype"` // the payload's type is not in the schema
 }
 
 var trailings = []string{" \n", ",", "]", " x", " null", "{}", "}", "\x00"}
@@ -895,7 +897,11 @@ func renderPayload(c payCase) string {
 	var rels []string
 	all := c.Rels
 	if c.UnknownRel != "" {
-		all = append(append([]relShape{}, c.Rels...), relShape{Name: "zr", Shape: c.UnknownRel, Listed: []string{"u"}})
+		name := "zr"
+		if c.UnknownRelName != "" {
+			name = c.UnknownRelName
+		}
+		all = append(append([]relShape{}, c.Rels...), relShape{Name: name, Shape: c.UnknownRel, Listed: []string{"u"}})
 	}
 	for i, r := range all {
 		switch r.Shape {
@@ -1391,6 +1397,10 @@ func codecOtherModes(mode string, rng *rand.Rand, stt *stats, w *evWriter, n int
 				c.Attrs["kint8"] = "300" // out of range: both must refuse
 			case 1:
 				c.Attrs["zz"] = "1" // unknown field
+			case 5:
+				c.Attrs["o"] = `"u"` // a name the type has, as a relationship: no attribute of that name
+			case 6:
+				c.Attrs["m"] = `["u"]`
 			case 2:
 				c.Attrs["kstring"] = "null"
 			case 3:
@@ -1510,6 +1520,9 @@ func codecOtherModes(mode string, rng *rand.Rand, stt *stats, w *evWriter, n int
 			if rng.Intn(8) == 0 {
 				c.UnknownRel = []string{"nodata", "nodata", "null", "ident", "list"}[rng.Intn(5)]
 				stt.class("unknownrel:" + c.UnknownRel)
+				if rng.Intn(3) == 0 {
+					c.UnknownRelName = "kstring" // a name the type has, as an attribute: no relationship of that name
+				}
 			}
 			ev := runPayload(c)
 			stt.Calls += 3
